@@ -2,7 +2,9 @@
 
    The stateful line buffer of system/input-buffer.c (stream, current line as explicit
    memory, cursor, line number), the option loop of mps_parse_abstract_stream (parser.c)
-   with atoi as glibc does it, the dispatch, and the token loops of the monomial reader,
+   with Degree / Precision read by mps_utils_parse_long (strtol with a range check, commit
+   9e1e2262; the sparse indices of the monomial readers and the two numbers of a 2.x header
+   likewise; the Chebyshev sparse reader still uses sscanf %d), the dispatch, and the token loops of the monomial reader,
    the legacy 2.x reader (monomial-parser.c), the secular reader (secular-parser.c) and
    the Chebyshev reader (chebyshev-parser.c), for mps_parse_string (memory stream, input
    cut at the first NUL) and mps_parse_stream / mps_parse_file (mps_skip_comments, then
@@ -15,7 +17,14 @@
      3  mpq_set / mpq_div of a rational with a non-positive denominator (outside GMP's contract)
      4  a coefficient index outside the allocation (Chebyshev sparse reader)
    (1 = NULL dereference, as in Tokenizer.v).  [chk] says whether the index check of
-   fixes/C09_chebyshev_sparse_index_check.patch is present in the source.
+   fixes/C09_chebyshev_sparse_index_check.patch (commit e017eba4) is present in the source:
+   it is; [chk = false] is the reader before that commit and is only kept for the
+   refutation theorem about it.
+
+   Messages: mps_error (s, "text") is [plain_err]; mps_raise_parsing_error with a token is
+   [tok_err]; with token == NULL (end of input) it formats the message WITH its arguments
+   (vsnprintf) and hands the finished text to mps_error through "%s" ([null_err], commits
+   fb161c73 + fixes/C18_parsing_error_args.patch).
 
    Every access to the line buffer is checked against the capacity of the buffer it goes
    to; the conjunction of all checks is the field [lok] of the state.  [lwork] counts the
@@ -69,7 +78,17 @@ Definition of_merr (fmt : list Z) (r : merr) : emsg :=
 (* mps_error (s, fmt) without further arguments *)
 Definition plain_err (fmt : list Z) : emsg := of_merr fmt (mps_error_fixed fmt []).
 
-(* mps_raise_parsing_error (s, buffer, token, msg) with token <> NULL *)
+(* mps_raise_parsing_error (s, buffer, NULL, msg, args...):
+     length = vsnprintf (NULL, 0, msg, ap); text = malloc (length + 1); vsnprintf (text, length + 1, msg, ap);
+     mps_error (s, "%s", text); *)
+Definition null_err (msg : list Z) (args : list farg) : emsg :=
+  match interp msg args [] 0 with
+  | FOk text _ => of_merr (str "%s") (mps_error_fixed (str "%s") [AStr text])
+  | FWild => EIndet msg
+  end.
+
+(* mps_raise_parsing_error (s, buffer, token, msg, args...) with token <> NULL: the message and
+   its arguments are handed to a format that has no conversion for them *)
 Definition tok_err (b : lbuf) (tok msg : list Z) : emsg :=
   of_merr (perr_prefix (lnum b) ++ escape_percent tok) (raise_parsing_error_fixed (lnum b) tok msg).
 
@@ -216,7 +235,7 @@ Definition msg_toolong : list Z := str "Maximum line length exceeded (length > 2
 Definition msg_degree_pos : list Z := str "Degree must be a positive integer".
 Definition msg_prec_pos : list Z := str "Precision must be a positive integer".
 Definition msg_degree_missing : list Z :=
-  str "Degree of the polynomial must be provided via the Degree=%d configuration option.".
+  str "Degree of the polynomial must be provided via the Degree=<n> configuration option.".
 
 (* the while (parsing_options) loop of mps_parse_abstract_stream *)
 Fixpoint opt_loop (fuel : nat) (B : budget) (first : bool) (o : opts) (b : lbuf) : step after_opts :=
@@ -248,9 +267,9 @@ Fixpoint opt_loop (fuel : nat) (B : budget) (first : bool) (o : opts) (b : lbuf)
                                  match fl with
                                  | FDegree =>
                                      match v with
-                                     | None => SCrash 1 b2                      (* atoi (NULL) *)
-                                     | Some val =>
-                                         let n := atoi val in
+                                     | None => SCrash 1 b2                      (* strtol (NULL) *)
+                                     | Some val =>      (* if (!mps_utils_parse_long (value, 1, INT_MAX - 1, &degree)) degree = 0; *)
+                                         let n := match parse_long val 1 (int_max - 1) with Some v => v | None => 0 end in
                                          if n <=? 0 then SErr (plain_err msg_degree_pos) b2
                                          else opt_loop f B false (set_n o n) b2
                                      end
@@ -258,7 +277,8 @@ Fixpoint opt_loop (fuel : nat) (B : budget) (first : bool) (o : opts) (b : lbuf)
                                      match v with
                                      | None => SCrash 1 b2
                                      | Some val =>
-                                         let p := mul_log2_10 (atoi val) in
+                                         (* if (!mps_utils_parse_long (value, 1, INT_MAX, &digits)) digits = 0; digits * LOG2_10 *)
+                                         let p := mul_log2_10 (match parse_long val 1 int_max with Some v => v | None => 0 end) in
                                          if p <=? 0 then SErr (plain_err msg_prec_pos) b2
                                          else opt_loop f B false (set_prec o p) b2
                                      end
@@ -286,19 +306,20 @@ Section Readers.
 
   (* token = next_token (buffer);
      if (!token || mpf_set_str (x[idx], token, 10) != 0) { mps_raise_parsing_error (s, buffer, token, msg); return NULL; }
-     [inrange] = idx is inside the allocation; x[idx] is only formed when token != NULL *)
-  Definition expect_f_at (inrange : bool) (msg : list Z) (b : lbuf) : step unit :=
+     [inrange] = idx is inside the allocation; x[idx] is only formed when token != NULL;
+     [args] = the arguments that follow msg in the call *)
+  Definition expect_f_at (inrange : bool) (msg : list Z) (args : list farg) (b : lbuf) : step unit :=
     sbind (next_token B b)
           (fun t b1 => match t with
-                       | None => SErr (plain_err msg) b1
+                       | None => SErr (null_err msg args) b1
                        | Some tok => if negb inrange then SCrash 4 b1
                                      else if gmpf tok then SOk tt b1 else SErr (tok_err b1 tok msg) b1
                        end).
 
-  Definition expect_q_at (inrange : bool) (msg : list Z) (b : lbuf) : step (Z * Z) :=
+  Definition expect_q_at (inrange : bool) (msg : list Z) (args : list farg) (b : lbuf) : step (Z * Z) :=
     sbind (next_token B b)
           (fun t b1 => match t with
-                       | None => SErr (plain_err msg) b1
+                       | None => SErr (null_err msg args) b1
                        | Some tok => if negb inrange then SCrash 4 b1
                                      else match gmpq tok with
                                           | Some q => SOk q b1
@@ -309,16 +330,18 @@ Section Readers.
   (* mpq_canonicalize *)
   Definition canon (q : Z * Z) (b : lbuf) : step unit := if snd q =? 0 then SCrash 2 b else SOk tt b.
 
-  Definition expect_qc_at (inrange : bool) (msg : list Z) (b : lbuf) : step unit :=
-    sbind (expect_q_at inrange msg b) canon.
+  Definition expect_qc_at (inrange : bool) (msg : list Z) (args : list farg) (b : lbuf) : step unit :=
+    sbind (expect_q_at inrange msg args b) canon.
 
   (* one coefficient: real part, and the imaginary part when the structure is complex *)
-  Definition coef_at (inrange : bool) (k : skd) (cplx : bool) (m1 m2 : list Z) (b : lbuf) : step unit :=
+  Definition coef_at (inrange : bool) (k : skd) (cplx : bool) (m1 : list Z) (a1 : list farg) (m2 : list Z) (a2 : list farg)
+             (b : lbuf) : step unit :=
     match k with
-    | KFp => sbind (expect_f_at inrange m1 b) (fun _ b1 => if cplx then expect_f_at inrange m2 b1 else SOk tt b1)
-    | _ => sbind (expect_qc_at inrange m1 b) (fun _ b1 => if cplx then expect_qc_at inrange m2 b1 else SOk tt b1)
+    | KFp => sbind (expect_f_at inrange m1 a1 b) (fun _ b1 => if cplx then expect_f_at inrange m2 a2 b1 else SOk tt b1)
+    | _ => sbind (expect_qc_at inrange m1 a1 b) (fun _ b1 => if cplx then expect_qc_at inrange m2 a2 b1 else SOk tt b1)
     end.
-  Definition coef := coef_at true.
+  (* the messages of the dense readers and of the monomial readers have no arguments *)
+  Definition coef (k : skd) (cplx : bool) (m1 m2 : list Z) : lbuf -> step unit := coef_at true k cplx m1 [] m2 [].
 
   Definition mk_poly (ty : Z) (o : opts) : poly :=
     {| p_type := ty; p_deg := o_n o; p_cplx := o_cplx o; p_kind := o_kind o;
@@ -332,10 +355,11 @@ Section Readers.
 
   Definition seen (i : Z) (l : list Z) : bool := existsb (Z.eqb i) l.
 
-  (* body of the sparse loops of the monomial readers; [cf] reads the coefficient *)
+  (* body of the sparse loops of the monomial readers; [cf] reads the coefficient;
+     the index is a long read by mps_utils_parse_long (token, LONG_MIN, LONG_MAX, &index) *)
   Definition sparse_body (n : Z) (cf : lbuf -> step unit) (tok : list Z) (sp : list Z) (b : lbuf)
     : step (list Z) :=
-    match sscanf_d tok with
+    match parse_long tok long_min long_max with
     | None => SErr (tok_err b tok msg_mono_idx) b
     | Some i =>
         if (i <? 0) || (n <? i) then SErr (tok_err b tok msg_mono_range) b
@@ -375,10 +399,12 @@ Section Readers.
   Definition msg_ch_qre : list Z := str "Error while reading the real part of coefficient".
   Definition msg_ch_qim : list Z := str "Error while reading the imaginary part of coefficient".
   Definition msg_ch_deg : list Z := str "Cannot parse the degree of the coefficient.".
-  Definition msg_ch_im_d : list Z := str "Error while reading imaginary part of coefficient %d".
-  Definition msg_ch_qre_d : list Z := str "Error while reading the real part of coefficient %d".
-  Definition msg_ch_qim_d : list Z := str "Error while reading the imaginary part of coefficient %d".
+  Definition msg_ch_im_d : list Z := (msg_ch_im ++ str " ") ++ str "%d".      (* "... of coefficient %d", degree *)
+  Definition msg_ch_qre_d : list Z := (msg_ch_qre ++ str " ") ++ str "%d".    (* "... of coefficient %d", i *)
+  Definition msg_ch_qim_d : list Z := (msg_ch_qim ++ str " ") ++ str "%d".
 
+  (* the argument of the FP message is the parsed degree; the rational branch passes [i], the counter of
+     the loop that zeroes the coefficients before this loop: Degree + 1 *)
   Definition cheb_sparse_body (o : opts) (tok : list Z) (u : unit) (b : lbuf) : step unit :=
     match sscanf_d tok with
     | None => SErr (tok_err b tok msg_ch_deg) b
@@ -387,8 +413,8 @@ Section Readers.
         if chk && negb inr then SErr (tok_err b tok msg_mono_range) b
         else
           match o_kind o with
-          | KFp => coef_at inr KFp (o_cplx o) msg_ch_re msg_ch_im_d b
-          | k => coef_at inr k (o_cplx o) msg_ch_qre_d msg_ch_qim_d b
+          | KFp => coef_at inr KFp (o_cplx o) msg_ch_re [] msg_ch_im_d [AInt d] b
+          | k => coef_at inr k (o_cplx o) msg_ch_qre_d [AInt (o_n o + 1)] msg_ch_qim_d [AInt (o_n o + 1)] b
           end
     end.
 
@@ -423,9 +449,9 @@ Section Readers.
 
   (* numerator token, mpq_set, denominator token, mpq_div, mpq_canonicalize *)
   Definition legacy_rat_part (b : lbuf) : step unit :=
-    sbind (expect_q_at true msg_v2_num b)
+    sbind (expect_q_at true msg_v2_num [] b)
           (fun q1 b1 => if snd q1 <? 0 then SCrash 3 b1        (* mpq_set of a negative denominator *)
-                        else sbind (expect_q_at true msg_v2_den b1) (fun q2 b2 => legacy_div q1 q2 b2)).
+                        else sbind (expect_q_at true msg_v2_den [] b1) (fun q2 b2 => legacy_div q1 q2 b2)).
 
   Definition legacy_coef (k : skd) (cplx : bool) (b : lbuf) : step unit :=
     match k with
@@ -449,17 +475,18 @@ Section Readers.
                let k := if c2 =? 113 then KRat else if c2 =? 105 then KInt else KFp in
                sbind (next_token B b1)
                  (fun t2 b2 =>
-                    match match t2 with Some tk => sscanf_ld tk | None => None end with
+                    (* !token || !mps_utils_parse_long (token, LONG_MIN, LONG_MAX / 4, &prec) *)
+                    match match t2 with Some tk => parse_long tk long_min (long_max / 4) | None => None end with
                     | None => SErr (plain_err msg_v2_prec) b2
                     | Some pr =>
                         let prec := mul_log2_10 pr in
                         sbind (next_token B b2)
                           (fun t3 b3 =>
-                             match match t3 with Some tk => sscanf_d tk | None => None end with
+                             (* !token || !mps_utils_parse_long (token, 0, INT_MAX - 1, &degree) *)
+                             match match t3 with Some tk => parse_long tk 0 (int_max - 1) | None => None end with
                              | None => SErr (plain_err msg_v2_deg) b3
                              | Some n =>
-                                 if n <? 0 then SErr (plain_err msg_v2_deg) b3
-                                 else if c0 =? 117
+                                 if c0 =? 117
                                  then SOk {| p_type := 3; p_deg := n; p_cplx := false; p_kind := KInt; p_dens := 2; p_prec := 0 |} b3
                                  else
                                    let b4 := add_work b3 (n + 1) in
